@@ -5,7 +5,7 @@ from typing import Any
 
 import z3
 
-from .values import HObj, Opt, Rec, Ref, Tup, Unsupported, is_z3
+from .values import ADT, HObj, Opt, Rec, Ref, Tup, Unsupported, is_z3
 
 
 class State:
@@ -168,6 +168,8 @@ class Env:
             return Tup(tuple(self.wrap(x, live, heap) for x in v.items), v.cls)
         if isinstance(v, Opt):
             return Opt(v.isnone, self.wrap(v.val, live, heap))
+        if isinstance(v, ADT):
+            return v.expr          # clauses work on the raw datatype term
         return v
 
     def __getattr__(self, name: str) -> Any:
